@@ -405,3 +405,29 @@ pub fn signature_from_bytes(sig: &[u8]) -> Out<usize> {
 pub fn verifying_key_from_bytes(alg: Alg, pk: &[u8]) -> Out<usize> {
     with_hash!(alg, H, { out_of(guard(|| VerifyingKey::<H>::from_bytes(pk).map(|k| k.as_slice().len()))) })
 }
+
+/// `hbs_lms::sign_mut` (feature fast_verify) with a recording callback; the message is updated
+/// in place.  Also returns the `hash_iterations` the library reports (feature verbose).
+#[cfg(feature = "fv")]
+pub fn sign_mut(alg: Alg, blob: &[u8], msg: &mut Vec<u8>, script: Cb) -> (SignRec, Option<u32>) {
+    let mut cb_args: Vec<Vec<u8>> = Vec::new();
+    let mut iterations: Option<u32> = None;
+    let result = with_hash!(alg, H, {
+        let cbref = &mut cb_args;
+        let it = &mut iterations;
+        out_of(guard(move || {
+            let mut cb = |new_key: &[u8]| -> Result<(), ()> {
+                cbref.push(new_key.to_vec());
+                match script {
+                    Cb::Accept => Ok(()),
+                    Cb::Refuse => Err(()),
+                }
+            };
+            hbs_lms::sign_mut::<H>(msg.as_mut_slice(), blob, &mut cb, None).map(|s| {
+                *it = Some(s.hash_iterations);
+                s.as_ref().to_vec()
+            })
+        }))
+    });
+    (SignRec { result, cb_args, late_callbacks: 0, key_after: None }, iterations)
+}
